@@ -128,6 +128,38 @@ example : (∀ op, op ∈ writesS2 → op.isCall = false) ∧ (∀ op, op ∈ re
     CleanCalls 6 1 progS2 (writesS2 ++ readsS2) :=
   ⟨by decide, by decide, cleanCalls_of_B 6 1 progS2 _ (by decide +kernel)⟩
 
+/-- **Stages 2 and 3** (nested calls ACROSS source changes, with collections).  Any program whose
+call graph is acyclic (`Acyclic P rank`: every call goes to a function of smaller rank) and any
+history — sets and removes of keyed sources and singletons, tracked-field writes, calls with every
+parameter shape, lookups, retain / clear / never-gc, collections with any capacity, in any order.
+Extra hypotheses, all explicit: the fuel exceeds every rank (no artificial fuel exhaustion), and
+`CleanStore` — at every call, the called node and every node stored at that moment evaluate from
+scratch without panicking (the stored nodes are what the verification of dependencies may
+re-execute; this excludes caught panics and reads through removed `SourceId`s).
+This is the early-cutoff argument for pico's stamps: verification of derived dependencies in
+recorded order, `time_verified` set before the dependencies are examined, `time_updated` reported
+even when backdating, absent sources as dependencies, collection of unreachable nodes. -/
+theorem C01_incremental_partial (fuel cap : Nat) (P : Prog) (rank : Nat → Nat) (h : List Op)
+    (hacy : Acyclic P rank) (hrank : ∀ g, rank g < fuel) (hclean : CleanStore fuel cap P h) :
+    C01_statement_at fuel cap P h := by
+  intro pre f a rest hh
+  rcases c01_inc hacy fuel cap hrank h hclean pre f a rest hh with hd | hv
+  · exact Or.inr (Or.inr (Or.inr hd))
+  · exact Or.inl hv
+
+/- Non-vacuity: a chain of depth 3 with a value-preserving middle, a diamond over a shared leaf, a
+reader of an (initially absent) singleton; writes, equal writes, removes and re-inserts interleaved
+with calls, two collections with capacity 1 and a retain. -/
+def progInc : Prog :=
+  [⟨0, .add (.call 1 .param) (.call 2 .param)⟩, ⟨0, .half (.call 3 .param)⟩, ⟨1, .add (.call 3 .param) (.sing 1)⟩,
+   ⟨0, .src .param⟩]
+def histInc : List Op :=
+  [.set 0 4, .set 1 9, .call 0 0, .set 0 5, .call 0 0, .sset 1 2, .call 0 0, .call 2 1, .gc, .set 0 5, .call 0 0,
+   .rem 1, .set 1 6, .retain 0 0, .call 0 1, .gc, .srem 1, .call 0 0, .set 0 8, .call 1 0, .call 0 0, .look 0 1]
+
+example : Acyclic progInc (fun i => 4 - i) ∧ (∀ g, (fun i => 4 - i) g < 6) ∧ CleanStore 6 1 progInc histInc :=
+  ⟨acyclic_of_bounded _ _ (by decide), fun g => by simp; omega, cleanStore_of_B 6 1 progInc histInc (by decide +kernel)⟩
+
 /-! ### repaired defects (F1, F2; /repo 79c6822) — the former witness histories now satisfy the statement -/
 
 /-- F1 (repaired): read an absent singleton, set it for the first time, call again. -/
